@@ -13,7 +13,7 @@ import (
 
 // R14.1 + R14.2
 var ruleExtend = &core.Rule{ID: "R14.1", Min: 6,
-	Doc: "Extend builds a fresh node from its own parameters (detector, type, extension, aliases, parent = receiver) and publishes it as [new] ++ old children (append of a one-element literal, slices.Concat of it with the old children, or make(len+1), store at 0, copy to [1:]) by one store under the write lock; the node may come from a constructor whose stores are mapped back to Extend's arguments, writing nothing else; the package-level Extend calls it on the root with its own parameters in order",
+	Doc: "Extend builds a fresh node from its own parameters (detector, type, extension, aliases, parent = receiver) and publishes it as [new] ++ old children (append of a one-element literal, slices.Concat of it with the old children, or make(len+1), store at 0, copy to [1:]) by one store under the write lock; the node may come from a constructor whose stores are mapped back to Extend's arguments, writing nothing else; the package-level Extend calls it on the root with its own parameters in order; no field of the new node is written after the store that publishes it",
 	Run: func(c *core.Ctx, s *core.Sink) {
 		m := getWalk(c)
 		cm := getConc(c)
@@ -71,6 +71,8 @@ var ruleExtend = &core.Rule{ID: "R14.1", Min: 6,
 		got := map[int]ssa.Value{}
 		_, _, regions := cm.lockset(c)
 		nChildStores := 0
+		var freshStores []*ssa.Store
+		var pubStore *ssa.Store
 		for _, b := range f.Blocks {
 			held := regions[f][b]
 			for _, in := range b.Instrs {
@@ -105,8 +107,10 @@ var ruleExtend = &core.Rule{ID: "R14.1", Min: 6,
 				switch {
 				case fresh != nil && fa.X == ssa.Value(fresh):
 					got[fa.Field] = st.Val
+					freshStores = append(freshStores, st)
 				case fa.X == ssa.Value(recv) && fa.Field == tm.FChildren:
 					nChildStores++
+					pubStore = st
 					s.Check(held == 2, "children replaced under the write lock", c.Pos(st.Pos()), "lock state W", "the new children slice is published without holding the write lock")
 					app, ok := st.Val.(*ssa.Call)
 					okShape := false
@@ -244,6 +248,23 @@ var ruleExtend = &core.Rule{ID: "R14.1", Min: 6,
 			}
 		}
 		s.Check(nChildStores == 1, "one publication", c.Pos(f.Pos()), "1 store to children", fmt.Sprintf("%d stores to the receiver's children", nChildStores))
+		// the node is complete when it is published: no field of it is written after the store that makes it reachable
+		if pubStore != nil {
+			late := ""
+			reach := core.Reach(pubStore.Block())
+			for _, fs := range freshStores {
+				after := false
+				if fs.Block() == pubStore.Block() {
+					after = core.InstrIndex(fs) > core.InstrIndex(pubStore)
+				} else if reach[fs.Block()] {
+					after = true
+				}
+				if after {
+					late = c.Pos(fs.Pos())
+				}
+			}
+			s.Check(late == "", "new node is complete when published", c.Pos(pubStore.Pos()), "every field store precedes the publication", "a field of the new node is written (at "+late+") after the node was made reachable from the tree: a concurrent detection or Lookup sees it half-built (wrong ancestor chain, missing aliases), and the write races with their reads")
+		}
 		// fields from parameters
 		paramOf := func(v ssa.Value) int {
 			v = core.Unwrap(v)
